@@ -351,6 +351,20 @@ func TestVerifC01Stream(t *testing.T) {
 		scs = append(scs, &plScenario{Name: "partition-race", SrcN: 1, TgtN: 1, Colls: []*plColl{c},
 			Drivers: []plDriver{{Kind: "start", Coll: 0}, {Kind: "addpart", Coll: 0, Part: "p1", PartState: pb.PartitionState_PartitionCreated}}})
 	}
+	// a partition dropped on a two-shard collection: what one shard has already seen of the drop must not change what the
+	// other shard hands over before its own drop message
+	{
+		sc := plShardedScenario("sharded:2-drop-partition", 2, func(i int) []plPack {
+			if i == 0 {
+				return []plPack{pkInsPart(1000), pkDropPart(1050)}
+			}
+			return []plPack{pkDropPart(1050), pkIns(1060)}
+		})
+		withPartition(sc.Colls[0], true)
+		sc.Drivers = append(sc.Drivers, plDriver{Kind: "addpart", Coll: 0, Part: "p1", PartState: pb.PartitionState_PartitionCreated})
+		sc.HeavyBound = 1
+		scs = append(scs, sc)
+	}
 	// two shards of one collection plus a second collection sharing the first pchannel
 	{
 		c1 := mkColl(101, "c1", []string{"src-dml_0", "src-dml_1"}, []string{"tgt-dml_0", "tgt-dml_1"})
